@@ -1,8 +1,12 @@
 SPECIFICATION Spec
 CONSTANT StoresC <- Stores_full
+CONSTANT SeekTopC <- SeekRepaired
+CONSTANT RangeC <- TRUE
 CHECK_DEADLOCK FALSE
 INVARIANT KS_Sound
 INVARIANT KS_Complete
 INVARIANT KS_Once
 INVARIANT KS_AtMostLimit
 INVARIANT KS_NewestSingle
+INVARIANT KS_WindowInclusive
+INVARIANT KS_FnAgrees
